@@ -4,7 +4,7 @@ Decided: the provider protocol around nni_aio_start (T6 rules A1..A5) over
 every provider in the build, the inline-completion rule D1, and the
 stop/fini wait structure S1/S2 of aio.c / taskq.c.
 """
-from ..core import same_expr, walk, show, apath, truth_of, const_of, AnalysisBroken, is_null
+from ..core import same_expr, walk, show, apath, truth_of, const_of, AnalysisBroken, is_null, last_field
 from ..aiolib import *
 
 EXPLANATION = ("C02: exhaustive check of the aio provider protocol (result of nni_aio_start honoured, no park "
@@ -694,6 +694,177 @@ def rule_d1(ctx):
                 r.ob(fn, "%s line %s: no mutex held" % (n.get("fn") or "indirect", fn.line_of(*pos)))
 
 
+def rule_e1(ctx):
+    """timer thread: the scan of eq_list accounts for every entry it walks past"""
+    r = ctx.rule("C02.E1", "T2", "expiry scan: every aio the timer thread walks past is either moved to the batch (removed from "
+                 "eq_list, bounded by the batch array) or lowers eq_next; eq_next is reset before the scan and is the wake-up "
+                 "time of the wait; every batch entry is dispatched or cancelled and its a_expiring hold released", floor=8)
+    fn = ctx.prog.need("nni_aio_expire_loop", "core/aio.c")
+    from .. import guards as G
+    # scan loop: a block testing `aio != NULL` from which a nni_list_next(&eq_list, aio) assignment leads back to it
+    nexts = [s for s in fn.calls("nni_list_next") if last_field(fn.expand(s.node["args"][0])) == "nni_aio_expire_q.eq_list"]
+    if not nexts:
+        raise AnalysisBroken("nni_aio_expire_loop: nni_list_next(&q->eq_list, ..) vanished")
+    hdr = None
+    for b in fn.blocks.values():
+        c = fn.cond(b.id) if b.term and len(b.succs) == 2 else None
+        if c is None or not (c.get("k") == "bin" and c["op"] == "!=" and c["lhs"].get("k") == "var" and is_null(c["rhs"])):
+            continue
+        if b.succs[0] is None:
+            continue
+        body = fn.reach((b.succs[0], 0), blocked=lambda bb, i, e, b=b: False, edge_ok=None)
+        if (b.id, 0) in body and any((s.b, s.i) in fn.reach((b.succs[0], 0), blocked=lambda bb, i, e, b=b: bb == b.id) for s in nexts):
+            # innermost candidate: the one whose body (not crossing itself) contains the list walk
+            if hdr is None or len(fn.blocks[b.id].elems) <= len(fn.blocks[hdr].elems):
+                hdr = b.id
+    if hdr is None:
+        raise AnalysisBroken("nni_aio_expire_loop: scan loop header not found")
+    var = fn.cond(hdr)["lhs"]["n"]
+    removes = G.positions(s for s in fn.calls("nni_list_remove")
+                          if last_field(fn.expand(s.node["args"][0])) == "nni_aio_expire_q.eq_list")
+    mins = set()
+    min_edges = {}
+    for b in fn.blocks.values():
+        c = fn.cond(b.id) if b.term and len(b.succs) == 2 else None
+        if c is not None and c.get("k") == "bin" and c["op"] in ("<", "<=", ">", ">=") and \
+                {last_field(c["lhs"]), last_field(c["rhs"])} == {"nng_aio.a_expire", "nni_aio_expire_q.eq_next"}:
+            mins.add((b.id, len(b.elems)))
+            min_edges[b.id] = 0 if c["op"] in ("<", "<=") and last_field(c["lhs"]) == "nng_aio.a_expire" else \
+                (0 if c["op"] in (">", ">=") and last_field(c["rhs"]) == "nng_aio.a_expire" else 1)
+    if not removes or not mins:
+        ctx.fail(r, fn, "scan accounting anchors", fn.line,
+                 "the scan no longer removes expiring entries from eq_list or no longer compares a_expire with eq_next")
+        return
+    body_start = (fn.blocks[hdr].succs[0], 0)
+    post = fn.blocks[hdr].succs[1]
+    seen = fn.reach(body_start, blocked=lambda b, i, e: (b, i) in removes or b == hdr,
+                    edge_ok=lambda b, k: not ((b, len(fn.blocks[b].elems)) in mins))
+    # leaving the body: either back at the header or in the code after the loop
+    back = [p for p in seen if any(fn.blocks[p[0]].succs[k] == hdr for k in range(len(fn.blocks[p[0]].succs)))
+            and p[1] == len(fn.blocks[p[0]].elems)]
+    out = (post, 0) in seen
+    if back or out:
+        why = "leaves the scan loop" if out else "goes on to the next entry"
+        goal = (post, 0) if out else back[0]
+        ctx.fail(r, fn, "entry walked past without accounting", fn.line_of(hdr, 0),
+                 "a path through the scan %s without removing the aio from eq_list and without the a_expire < eq_next "
+                 "comparison: eq_next can stay NNI_TIME_NEVER while due entries are still queued, and their operations never "
+                 "complete" % why,
+                 G.path_lines(fn, body_start, goal, blocked=removes, cut={b: 0 for b, _ in mins} if False else None) or
+                 fn.path_lines(fn.find_path(body_start, lambda b, i: (b, i) == goal,
+                                            blocked=lambda b, i, e: (b, i) in removes or b == hdr,
+                                            edge_ok=lambda b, k: not ((b, len(fn.blocks[b].elems)) in mins))))
+    else:
+        r.ob(fn, "scan body: every path removes the entry or compares it with eq_next")
+    # the true edge of the comparison stores a_expire into eq_next
+    for b, k in min_edges.items():
+        tgt = fn.blocks[b].succs[k]
+        st = [s for s in G.stores(fn, "eq_next") if s.b == tgt and last_field(fn.expand(s.node["rhs"])) == "nng_aio.a_expire"]
+        if st:
+            r.ob(fn, "eq_next lowered to a_expire on the earlier-than edge")
+        else:
+            ctx.fail(r, fn, "eq_next not lowered", fn.line_of(b, 0), "the edge on which a_expire is earlier than eq_next does not store it")
+    # reset before the scan
+    resets = [s for s in G.stores(fn, "eq_next") if const_of(fn.expand(s.node["rhs"])) is not None]
+    if resets and fn.dominated_by((hdr, 0), blocked=lambda b, i, e: (b, i) in G.positions(resets)) is False:
+        pass
+    pre = fn.reach((fn.entry, 0), blocked=lambda b, i, e: (b, i) in G.positions(resets) or (b, i) in G.positions(
+        s for s in fn.calls("nni_list_first")))
+    # every way into the scan from a fresh nni_list_first passes the reset
+    firsts = [s for s in fn.calls("nni_list_first") if last_field(fn.expand(s.node["args"][0])) == "nni_aio_expire_q.eq_list"]
+    okr = bool(resets) and bool(firsts)
+    for s in firsts:
+        sn = fn.reach((s.b, s.i + 1), blocked=lambda b, i, e: (b, i) in G.positions(resets))
+        if (hdr, 0) in sn:
+            okr = False
+    if okr:
+        r.ob(fn, "eq_next reset to NNI_TIME_NEVER before every scan")
+    else:
+        ctx.fail(r, fn, "eq_next not reset before the scan", fn.line_of(hdr, 0),
+                 "a scan can start with the previous eq_next: an entry that was removed meanwhile keeps the thread spinning, "
+                 "or a later minimum is never recorded")
+    # the wait uses the eq_next read under the lock in the same iteration
+    for s in fn.calls("nni_cv_until"):
+        a = fn.expand(s.node["args"][1])
+        good = False
+        if a.get("k") == "var":
+            from .c01 import reaching_defs
+            rd = reaching_defs(fn, a["n"], (s.b, s.i))
+            good = bool(rd) and all(last_field(x) == "nni_aio_expire_q.eq_next" for _, x in rd)
+        elif last_field(a) == "nni_aio_expire_q.eq_next":
+            good = True
+        if good:
+            r.ob(fn, "the timer thread sleeps until eq_next")
+        else:
+            ctx.fail(r, fn, "wait deadline is not eq_next", s.line, "nni_cv_until(cv, %s)" % show(a))
+    # batch bound
+    arr = None
+    for s in fn.assigns():
+        l = s.node["lhs"]
+        if l.get("k") == "idx" and l["b"].get("k") == "var" and fn.locals().get(l["b"]["n"], {}).get("t", "").endswith("]"):
+            i = l["i"]
+            if i.get("k") == "un" and i.get("op") == "++":
+                arr = (s, l["b"]["n"], i["e"])
+    if arr is None:
+        raise AnalysisBroken("nni_aio_expire_loop: batch store vanished")
+    s, aname, ivar = arr
+    t = fn.locals()[aname]["t"]
+    try:
+        size = int(t[t.rindex("[") + 1:-1])
+    except ValueError:
+        size = None
+    bound = G.cmp_edges(fn, lambda l: same_expr(l, ivar), {"<": 0, ">=": 1}, rhs_match=lambda x: const_of(x) is not None and
+                        size is not None and const_of(x) <= size)
+    # `idx == N -> leave` is as good as `idx < N` when idx only ever moves by ++ from 0
+    steps_ok = True
+    for x in fn.sites():
+        n = x.node
+        if n.get("k") == "asg" and same_expr(n["lhs"], ivar) and not (n.get("op") == "=" and const_of(fn.expand(n["rhs"])) == 0):
+            steps_ok = False
+        if n.get("k") == "un" and n.get("op") in ("--",) and same_expr(n["e"], ivar):
+            steps_ok = False
+    if steps_ok:
+        bound.update(G.cmp_edges(fn, lambda l: same_expr(l, ivar), {"!=": 0, "==": 1}, rhs_match=lambda x: const_of(x) is not None and
+                                 size is not None and 0 < const_of(x) <= size))
+    if bound and G.dominated(fn, (s.b, s.i), bound):
+        r.ob(fn, "batch store %s[%s++] bounded by the array size %s" % (aname, show(ivar), size))
+    else:
+        ctx.fail(r, fn, "batch store unbounded", s.line, "%s[%s++] is not dominated by %s < %s" % (aname, show(ivar), show(ivar), size))
+    # dispatch loop: each entry is dispatched or cancelled, hold released
+    holds = [x for x in G.stores(fn, "a_expiring", value="nonnull")]
+    rel = [x for x in G.stores(fn, "a_expiring", value="null")]
+    loads = [x for x in fn.assigns() if x.node["rhs"] is not None and fn.expand(x.node["rhs"]).get("k") == "idx" and
+             fn.expand(x.node["rhs"])["b"].get("k") == "var" and fn.expand(x.node["rhs"])["b"]["n"] == aname]
+    if not holds or not rel or not loads:
+        ctx.fail(r, fn, "a_expiring hold", fn.line, "the expiring hold is no longer taken in the scan and released after the dispatch")
+        return
+    for ld in loads:
+        acts = G.positions(list(fn.calls("nni_task_dispatch")) + [c for c in fn.calls(None) if c.node.get("ind") is not None])
+        # after loading an entry: release on every path to the next load / loop exit
+        bad = G.must_pass(fn, (ld.b, ld.i + 1), G.positions(rel), stop={(ld.b, ld.i)} | {(fn.exit, 0)} |
+                          G.positions(fn.calls("nni_cv_wake")))
+        if bad:
+            ctx.fail(r, fn, "a_expiring not released", ld.line, "a batch entry can be left with a_expiring set: nni_aio_stop/free spin forever")
+        else:
+            r.ob(fn, "every batch entry releases its a_expiring hold")
+        # sleep -> dispatch; else cancel_fn != NULL -> call
+        sl = {b: k for b, k in G.cond_edges(fn, lambda n: n.get("k") == "mem" and n["f"] == "a_sleep").items()}
+        okd = False
+        for b, k in sl.items():
+            tgt = fn.blocks[b].succs[k]
+            if not G.must_pass(fn, (tgt, 0), G.positions(fn.calls("nni_task_dispatch")), stop=G.positions(rel)):
+                okd = True
+        if okd:
+            r.ob(fn, "sleeping aio is completed by dispatching its task")
+        else:
+            ctx.fail(r, fn, "sleep expiry not dispatched", ld.line, "an expired nng_sleep_aio does not reach nni_task_dispatch")
+        ind = [c for c in fn.sites() if c.node.get("k") == "call" and c.node.get("ind") is not None]
+        if ind:
+            r.ob(fn, "non-sleep entries are handed to their cancel function (%d indirect call)" % len(ind))
+        else:
+            ctx.fail(r, fn, "cancel function not invoked", ld.line, "expired operations are no longer handed to a_cancel_fn")
+
+
 def run(ctx):   # noqa: F811
     rule_a1(ctx)
     rule_a2(ctx)
@@ -702,3 +873,4 @@ def run(ctx):   # noqa: F811
     rule_a5(ctx)
     rule_a7(ctx)
     rule_d1(ctx)
+    rule_e1(ctx)
